@@ -13,6 +13,7 @@ package linker
 //@ ghost versionOK bool
 //@ ghost fileThere bool
 //@ ghost linkComplete bool
+//@ ghost patchHash string
 //@ ghost lastRead string
 //@ ghost lastReadPath string
 //@ ghost lastWrite string
@@ -25,8 +26,13 @@ package linker
 //@   assert("unlock-only-while-held", lockHeld)
 //@   lockHeld = false
 //@   unlocks++
+//@ hook after mvdan.cc/garble/internal/linker.loadLinkerPatches(mv) (ver, mod, pat, err)
+//@   patchHash = ver
+//@ hook before mvdan.cc/garble/internal/linker.loadLinkerPatches(mv)
+//@   assert("[C06] patches-are-those-of-this-go-release", mv == version.Lang(goVersion))
 //@ hook before mvdan.cc/garble/internal/linker.checkVersion(p, gv, pv)
 //@   assert("version-check-under-lock", lockHeld)
+//@   assert("[C06] cached-linker-is-checked-against-this-go-version-and-these-patches", p == outputLinkPath && gv == goVersion && pv == patchHash)
 //@ hook after mvdan.cc/garble/internal/linker.checkVersion(p, gv, pv) (ok, err)
 //@   versionOK = ok && err == nil
 //@ hook before mvdan.cc/garble/internal/linker.fileExists(p)
@@ -36,11 +42,13 @@ package linker
 //@ hook before mvdan.cc/garble/internal/linker.applyPatches(a, b, c, d)
 //@   assert("patching-under-lock", lockHeld)
 //@ hook before mvdan.cc/garble/internal/linker.buildLinker(a, b, c, d)
+//@   assert("[C06,C17] linker-is-built-at-the-cached-path-the-lock-protects", d == outputLinkPath)
 //@   assert("build-under-lock", lockHeld)
 //@   linkComplete = false
 //@ hook after mvdan.cc/garble/internal/linker.buildLinker(a, b, c, d) (err)
 //@   if err == nil { built = true; linkComplete = true }
 //@ hook before mvdan.cc/garble/internal/linker.writeVersion(p, gv, pv)
+//@   assert("[C06] stamp-records-this-go-version-and-these-patches-for-the-linker-just-built", p == outputLinkPath && gv == goVersion && pv == patchHash)
 //@   assert("stamp-under-lock", lockHeld)
 //@   assert("stamp-only-after-successful-build", built)
 //@ hook after mvdan.cc/garble/internal/linker.writeVersion(p, gv, pv) (err)
@@ -66,7 +74,7 @@ package linker
 //@ end
 
 //@ func PatchLinker
-//@   property C07 C17 C18
+//@   property C07 C17 C18 C06
 //@   hooks linker
 //@   requires !lockHeld && !everLocked && unlocks == 0 && !built && !stamped
 //@   ensures @success-keeps-the-lock-for-the-caller: r2 == nil ==> lockHeld && unlocks == 0 && r1 == acquired
